@@ -35,6 +35,7 @@ def r1_table(ctx):
             continue
         rows = 0
         kinds = set()
+        inlined_q = set()
         for p in ctx.paths(b, max_paths=60000):
             if ends(p) != "ret":
                 continue
@@ -93,6 +94,18 @@ def r1_table(ctx):
                     # the payload must be the index at which '=' was found
                     eq = fc is not None and any(e[0] == "switch" and e[3] == 61 and strip_wrappers(e[2])[0] == "pl" and strip_wrappers(e[2])[1] == fc for e in p)
                     ctx.ob("R1", "next:Duplicated", sname == "SkipEqValue" and eq, "repeated key: resume state SkipEqValue(index of '=') (state %s, payload is the '=' index: %s)" % (sname, eq), config=cfg)
+            elif rv[:3] in (("Some", "Ok", "DoubleQ"), ("Some", "Ok", "SingleQ")):
+                # the helpers double_q / single_q written out in place: item (key, value), state Next(value.end + 1)
+                callee = "double_q" if rv[2] == "DoubleQ" else "single_q"
+                kinds.add(callee)
+                item = r[3][0][3][0]
+                val = item[3][1] if item[0] == "agg" and len(item[3]) > 1 else None
+                ok = val is not None and val[0] == "agg" and val[2] == "Range" and val[3][0][0] == "bin" and val[3][0][1] == "Add" and val[3][0][3] == ("c", "usize", 1) and found_index(val[3][0][2]) is not None and found_index(val[3][1]) is not None
+                ctx.ob("R1", "next:%s:value-range" % callee, ok, "quoted value = (index after the opening quote)..(index of the closing quote)", config=cfg)
+                nxt = state[3][0] if sname == "Next" and state[3] else None
+                ok2 = nxt is not None and nxt[0] == "bin" and nxt[1] == "Add" and nxt[3] == ("c", "usize", 1) and val is not None and (nxt[2] == val[3][1] or ends_with_fields(nxt[2], "end"))
+                ctx.ob("R1", "%s:resume" % callee, ok2, "after a quoted value iteration resumes at value.end + 1 (after the closing quote)", config=cfg)
+                inlined_q.add(callee)
             elif rv[:3] == ("Some", "Ok", "Unquoted"):
                 kinds.add("Unquoted")
                 html = decision_on(p, lambda t: is_self_field(t, "html"))
@@ -107,6 +120,8 @@ def r1_table(ctx):
         ctx.ob("R1", "next:kinds", kinds == want, "next() produces exactly the documented outcomes: missing %s extra %s" % (sorted(want - kinds), sorted(kinds - want)), config=cfg)
         # helpers
         for fn, var in (("double_q", "DoubleQ"), ("single_q", "SingleQ")):
+            if fn in inlined_q:
+                continue  # written out inside next(): checked on those paths
             h = ctx.body(F, "events::attributes::IterState::" + fn, "R1")
             if h is None:
                 continue
@@ -147,12 +162,13 @@ def r3_duplicates(ctx):
             r = ret_of(p)
             rv = describe_ret(r, 1)[0]
             pushed = any(name_is(c[2], "Vec::push") and ends_with_fields(c[3][0], "keys") for c in calls(p))
-            searched = any(name_is(c[2], "find") for c in calls(p))
+            over_keys = lambda c: has_subterm(c[3][0], lambda s2: s2[0] == "pl" and ends_with_fields(s2, "keys")) if c[3] else False
+            searched = any(name_is(c[2], "find") for c in calls(p)) or any(name_is(c[2], "next") and has_subterm(c[3][0], lambda s2: s2[0] == "phi" or call_is(s2, "iter", "into_iter")) for c in calls(p))
             if chk == 0:
                 ctx.ob("R3", "check_for_duplicates[off]", rv[:1] == ("Ok",) and not pushed and not searched, "with checks off keys are neither compared nor recorded", config=cfg)
             elif rv[:2] == ("Err", "Duplicated"):
                 d = r[3][0]
-                ok = ends_with_fields(d[3][0], "start") and root_of(d[3][0])[0] == "arg" and has_subterm(d[3][1], lambda s: call_is(s, "find"))
+                ok = ends_with_fields(d[3][0], "start") and root_of(d[3][0])[0] == "arg" and has_subterm(d[3][1], lambda s: call_is(s, "find", "next")) and ends_with_fields(strip_wrappers(d[3][1]), "start")
                 ctx.ob("R3", "check_for_duplicates[dup]", ok and not pushed, "Duplicated(position of this key, position of the previous one)", config=cfg)
             else:
                 ctx.ob("R3", "check_for_duplicates[new]", rv[:1] == ("Ok",) and pushed and searched, "a new key is recorded after the search", config=cfg)
@@ -163,6 +179,12 @@ def r3_duplicates(ctx):
                 r = ret_of(p)
                 if r is not None and r[0] == "call" and name_is(r[2], "eq") and "[u8]" in str([c[5] for c in calls(p) if name_is(c[2], "eq")]):
                     ok = True
+        if not ok:
+            # the comparison written in the function itself (loop spelling)
+            for p in ctx.paths(b):
+                for c in calls(p):
+                    if name_is(c[2], "eq") and "[u8]" in str(c[5]) and not isinstance(c[1], tuple):
+                        ok = True
         ctx.ob("R3", "check_for_duplicates:compare", ok, "keys are compared as byte slices (slice equality)", config=cfg)
 
 
